@@ -98,6 +98,12 @@ func (s *Session) resolveType(pkg *types.Package, name string) types.Type {
 				return o.Type()
 			}
 		}
+		// any loaded package of that name (contracts of a library may name the types of its user)
+		if p := s.eng.typesPkgByName(pn); p != nil {
+			if o := p.Scope().Lookup(tn); o != nil {
+				return o.Type()
+			}
+		}
 	}
 	if pkg != nil {
 		if o := pkg.Scope().Lookup(name); o != nil {
@@ -901,6 +907,56 @@ func (s *Session) evalCall(se *SpecEnv, x *SCall) Val {
 				args = append(args, intLeaves(s.materialize(s.evalSpec(se, a)).L)...)
 			}
 			return scalar(types.NewPointer(tt), s.uf("spec:"+name, SInt, args...))
+		case "runmode": // runmode("M"): the function under proof is being verified in contract mode M
+			return boolVal(B(s.runMode == x.Args[0].(*SStr).V))
+		case "ufcast": // ufcast(e, T): the integer e seen as a *T reference
+			v := s.evalSpec(se, x.Args[0])
+			var tn string
+			switch a := x.Args[1].(type) {
+			case *SIdent:
+				tn = a.Name
+			case *SSel:
+				tn = a.X.(*SIdent).Name + "." + a.Name
+			}
+			return scalar(types.NewPointer(s.resolveType(se.pkg, tn)), v.T0())
+		case "iter": // iter("Name", K, "k"|"n"|"stopped"): final position of a modelled iteration call
+			key := x.Args[0].(*SStr).V + "#" + x.Args[1].(*SNum).V
+			if se.fr == nil || se.fr.iters == nil {
+				specFail("iter(%s): no such iteration executed yet", key)
+			}
+			inf, ok := se.fr.iters[key]
+			if !ok {
+				specFail("iter(%s): no such iteration executed yet", key)
+			}
+			switch x.Args[2].(*SStr).V {
+			case "k":
+				return untypedInt(inf.k)
+			case "n":
+				return untypedInt(inf.n)
+			case "stopped":
+				return boolVal(inf.stopped)
+			}
+			specFail("iter: unknown component")
+		case "iterrank": // iterrank("Name", K): inverse of the ghost visit sequence
+			key := x.Args[0].(*SStr).V + "#" + x.Args[1].(*SNum).V
+			if se.fr == nil || se.fr.iters == nil {
+				specFail("iterrank(%s): no such iteration executed yet", key)
+			}
+			inf, ok := se.fr.iters[key]
+			if !ok {
+				specFail("iterrank(%s): no such iteration executed yet", key)
+			}
+			return Val{Typ: nil, L: []T{inf.rk}}
+		case "iterseq": // iterseq("Name", K): the ghost visit sequence (index it with [i], cast with ufcast)
+			key := x.Args[0].(*SStr).V + "#" + x.Args[1].(*SNum).V
+			if se.fr == nil || se.fr.iters == nil {
+				specFail("iterseq(%s): no such iteration executed yet", key)
+			}
+			inf, ok := se.fr.iters[key]
+			if !ok {
+				specFail("iterseq(%s): no such iteration executed yet", key)
+			}
+			return Val{Typ: nil, L: []T{inf.seq}}
 		case "ufb":
 			name := x.Args[0].(*SStr).V
 			var args []T
